@@ -124,8 +124,10 @@ def pin_value(ex, st, v, pin):
     return v
 
 
-def run_entry(f, body_id, pins=None, max_states=60000, args_fn=None):
+def run_entry(f, body_id, pins=None, max_states=60000, args_fn=None, setup=None):
     ex = Exec(f, max_states=max_states)
+    if setup:
+        setup(ex)
     b = ex.body(body_id)
     st = St()
     args = args_fn(ex, st, b) if args_fn else initial_args(ex, st, b, pins)
@@ -176,7 +178,9 @@ def report(r, label, ex, documented=None):
             fnbase = strip_generics(ob.fn)
             hit = None
             for (ty, fname, kind), why in DOCUMENTED_PANICS.items():
-                if ob.kind == kind and re.sub(r'::<[^>]*>', '', ob.fn).startswith(ty) and re.sub(r'::<[^>]*>', '', ob.fn).endswith('::' + fname):
+                # the documented panic may be written as assert!/debug_assert! or as an explicit call of a diverging (cold) helper: any
+                # *explicit* panic of the documented function is the documented one; bounds / overflow / unwrap failures never are
+                if (ob.kind == kind or ob.kind == 'panic') and re.sub(r'::<[^>]*>', '', ob.fn).startswith(ty) and re.sub(r'::<[^>]*>', '', ob.fn).endswith('::' + fname):
                     hit = why
             if hit:
                 ndoc += 1
